@@ -188,20 +188,30 @@ def life_src(prog, nbuf):
          ('loop', [stmts]) | ('if', [stmts])"""
     L = []
     n = [0]
+    vkinds = {}
 
     def emit(stmts, ind):
         P = "  " * ind
         for s in stmts:
             if s[0] == "alloc":
                 i = s[1]
-                L.append(P + f'%d{i} = "snax.alloc"(%sz{i}, %c16) <{{memory_space = "L1", alignment = {s[2]} : i32}}> : (index, index) -> {DESC2}')
+                space = s[3] if len(s) > 3 else "L1"
+                L.append(P + f'%d{i} = "snax.alloc"(%sz{i}, %c16) <{{memory_space = "{space}", alignment = {s[2]} : i32}}> : (index, index) -> {DESC2}')
                 L.append(P + f'%b{i} = "builtin.unrealized_conversion_cast"(%d{i}) : ({DESC2}) -> memref<16xi8>')
             elif s[0] == "use":
                 L.append(P + f'"test.op"(%b{s[1]}) : (memref<16xi8>) -> ()')
             elif s[0] == "view":
-                L.append(P + f'%v{s[1]} = memref.subview %b{s[1]}[4] [8] [1] : memref<16xi8> to memref<8xi8, strided<[1], offset: 4>>')
+                kind = s[2] if len(s) > 2 else "subview"
+                vkinds[s[1]] = kind
+                if kind == "subview":
+                    L.append(P + f'%v{s[1]} = memref.subview %b{s[1]}[4] [8] [1] : memref<16xi8> to memref<8xi8, strided<[1], offset: 4>>')
+                elif kind == "unranked":
+                    L.append(P + f'%v{s[1]} = "memref.cast"(%b{s[1]}) : (memref<16xi8>) -> memref<*xi8>')
+                else:  # back to the descriptor struct
+                    L.append(P + f'%v{s[1]} = "builtin.unrealized_conversion_cast"(%b{s[1]}) : (memref<16xi8>) -> {DESC2}')
             elif s[0] == "useview":
-                L.append(P + f'"test.op"(%v{s[1]}) : (memref<8xi8, strided<[1], offset: 4>>) -> ()')
+                vt = {"subview": "memref<8xi8, strided<[1], offset: 4>>", "unranked": "memref<*xi8>", "struct": DESC2}[vkinds.get(s[1], "subview")]
+                L.append(P + f'"test.op"(%v{s[1]}) : ({vt}) -> ()')
             elif s[0] == "loop":
                 n[0] += 1
                 L.append(P + f"scf.for %i{n[0]} = %c0 to %c16 step %c1 {{")
@@ -245,14 +255,14 @@ def gen_life_progs(rnd, n, nbuf_max=3):
                 if depth == 0 and len(allocated) < nb and (r < 0.35 or not allocated):
                     i = len(allocated)
                     allocated.append(i)
-                    res.append(("alloc", i, rnd.choice([1, 4, 8, 64])))
+                    res.append(("alloc", i, rnd.choice([1, 4, 8, 64]), rnd.choice(["L1", "L1", "L1", "L3"])))
                 elif allocated and r < 0.6:
                     res.append(("use", rnd.choice(allocated)))
                 elif allocated and r < 0.72 and depth == 0:
                     i = rnd.choice(allocated)
                     if i not in viewed:
                         viewed.add(i)
-                        res.append(("view", i))
+                        res.append(("view", i, rnd.choice(["subview", "subview", "unranked", "struct"])))
                 elif viewed and r < 0.85:
                     res.append(("useview", rnd.choice(sorted(viewed))))
                 elif allocated and depth < 2 and r < 0.95:
@@ -339,13 +349,15 @@ def case_lifetime(case):
         E.oblige("alloc:one_pointer_per_buffer", z3.BoolVal(len(ptr_consts) == len(allocs)), dict(pointers=len(ptr_consts), allocs=len(allocs)))
         if len(ptr_consts) != len(allocs):
             return
-        start = 0x10000000
-        P = [sym.zint(p) for p in ptr_consts]
+        WIN = {"L1": (0x10000000, 65536), "L3": (0x80000000, int(1e9))}
+        space_of = [a.memory_space.data for a in allocs]
+        P = [sym.zint(p) % (1 << 32) for p in ptr_consts]  # i32 constants: addresses above 2^31 are stored as negative numbers
         S = [sizes[order[k]].z for k in range(len(allocs))]
         for k in range(len(allocs)):
             al = allocs[k].alignment.value.data if allocs[k].alignment is not None else 1
             E.oblige("alloc:aligned", P[k] % al == 0 if al else z3.BoolVal(True), dict(buffer=k))
-            E.oblige("alloc:inside_memory_window", z3.And(P[k] >= start, P[k] + S[k] <= start + 65536), dict(buffer=k))
+            start, cap = WIN[space_of[k]]
+            E.oblige("alloc:inside_memory_window", z3.And(P[k] >= start, P[k] + S[k] <= start + cap), dict(buffer=k, space=space_of[k]))
             for j in range(k):
                 a0, a1 = truth[k]
                 b0, b1 = truth[j]
